@@ -346,7 +346,7 @@ for _i, _x in enumerate("xyz"):
         f"Momentumdown{x}_norm = Momentumdown{x}/Momentum_Escale"
 REF["Momentumup3"] = lambda cfg: (
     "Momentumup3[0]=Momentumx; Momentumup3[1]=Momentumy; Momentumup3[2]=Momentumz"
-    if cfg.get("in:Momentumx") else
+    if (cfg.get("in:Momentumx") and cfg.get("in:Momentumy") and cfg.get("in:Momentumz")) else
     _DX + "Momentumup3[a] = DX[b,a,b]" + ("" if cfg.get("vacuum")
                                           else " - kappa*fluxup3_n[a]"))
 REF["Momentumdown3"] = lambda cfg: "Momentumdown3[a] = gammadown3[a,b]*Momentumup3[b]"
